@@ -136,6 +136,9 @@ Uses == {Comp(Alias("plain"), <<Arg("name", StrL("Ann"))>>, <<>>, 1), Comp(Alias
          Comp(Alias("both"), <<Arg("n", StrL("b"))>>, <<Sl("x", <<H("X")>>), Sl("", <<H("D")>>)>>, 1),
          Comp(Alias("both"), <<Arg("n", StrL("c"))>>, <<Sl("", <<Comp(Alias("plain"), <<Arg("name", StrL("in"))>>, <<>>, 1)>>)>>, 1),
          Comp(Ref("card"), <<Arg("name", Var("who"))>>, <<>>, 1),
+         \* a slot body is passed whole: white space at its start and end is part of it
+         Comp(Alias("named"), <<Arg("n", IntL(1)), Arg("big", BoolL(FALSE))>>, <<Sl("head", <<H(" "), P(Var("who")), H(" ")>>), Sl("foot", <<H("\n  "), If(<<Br(Var("yes"), <<H("y")>>)>>, NoElse, 1), H("\n")>>)>>, 1),
+         Comp(Alias("def"), <<>>, <<Sl("", <<H("  "), P(Var("cnt")), H("\t")>>)>>, 1),
          Comp(Alias("edges"), <<>>, <<Sl("head", <<H("H")>>)>>, 1), Comp(Alias("edges"), <<>>, <<Sl("foot", <<H("F")>>), Sl("", <<H("D")>>), Sl("head", <<P(Var("who"))>>)>>, 1),
          \* an argument whose value is nil, empty or falsy is bound like any other
          Comp(Alias("plain"), <<Arg("name", NilL)>>, <<>>, 1), Comp(Alias("two"), <<Arg("a", StrL("")), Arg("b", IntL(0)), Arg("c", BoolL(FALSE))>>, <<>>, 1),
@@ -191,11 +194,12 @@ Bad07 == {[tree |-> Tree07(<<H("x"), u>>), page |-> "home", d |-> Data07, tags |
 
 (* ---------------- C10 in trees: a literal passed as insert or component argument is escaped ---------------- *)
 EscL == Lit(S("&lt;b&gt;&amp;'q'"), "\"<b>&'q'\"", "str")
+SpL == Lit(S("  padded &amp; \t"), "\"  padded & \t\"", "str")          \* white space at both ends of a literal belongs to it
 Esc10 == {[tree |-> [n \in DOMAIN Comps07 \cup {"home", "layouts/main"} |->
-                       CASE n = "home" -> Tpl(Alias("main"), <<InsertE("title", EscL, 1), InsertB("content", <<P(EscL), H("|"), Comp(Alias("plain"), <<Arg("name", EscL)>>, <<>>, 1),
-                                                                                                   H("|"), Comp(Alias("def"), <<>>, <<Sl("", <<P(Bin("+", EscL, StrL("!")))>>)>>, 1)>>, 1)>>)
+                       CASE n = "home" -> Tpl(Alias("main"), <<InsertE("title", L, 1), InsertB("content", <<P(L), H("|"), Comp(Alias("plain"), <<Arg("name", L)>>, <<>>, 1),
+                                                                                                   H("|"), Comp(Alias("def"), <<>>, <<Sl("", <<P(Bin("+", L, StrL("!")))>>)>>, 1)>>, 1)>>)
                          [] n = "layouts/main" -> Tpl(NoUse, LayA) [] OTHER -> Comps07[n]],
-            page |-> "home", d |-> Data07, tags |-> <<"c10", "tree">>]}
+            page |-> "home", d |-> Data07, tags |-> <<"c10", "tree">>] : L \in {EscL, SpL}}
 
 (* ---------- C07 / C04: an argument named like a visible variable of another type is bound or refused, never dropped ---------- *)
 PolicyShadow == "shadow"
